@@ -219,6 +219,12 @@ class Broker:
         cb()
 
     # ---- crash injection ------------------------------------------------------------------
+    def _pre_op(self, ch):
+        """fail_after = -1: the process dies before its first broker operation of the frame"""
+        if self.fail_after is not None and self.fail_after < 0 and ch.connection.name == self.fail_conn:
+            self.fail_after = None
+            raise SimCrash()
+
     def _count_op(self, ch):
         if self.fail_after is not None and ch.connection.name == self.fail_conn:
             if self.fail_after <= 0:
@@ -316,6 +322,7 @@ class Broker:
         return out
 
     def basic_publish(self, ch, exchange, key, body, props, mandatory):
+        self._pre_op(ch)
         if isinstance(body, str):
             body = body.encode("utf-8")
         self.sn += 1
@@ -410,6 +417,7 @@ class Broker:
         return True
 
     def basic_ack(self, ch, tag, multiple):
+        self._pre_op(ch)
         pend = self.unacked[ch.gid]
         if multiple:
             tags = [t for t in pend if tag == 0 or t <= tag]
